@@ -54,6 +54,17 @@ func init() {
 		"strconv.bitSizeError": opaqueErrorPtr,
 		"strconv.ParseFloat":   strconvParseFloat,
 		"strconv.Itoa":         strconvItoa,
+		"(*strings.Builder).WriteByte":   sbWriteByte,
+		"(*strings.Builder).WriteString": sbWriteString,
+		"(*strings.Builder).Write":       sbWrite,
+		"(*strings.Builder).WriteRune":   sbWriteRune,
+		"(*strings.Builder).String":      func(in *Interp, fn *ssa.Function, args []value) value { return mkStr(sbBuf(in, args[0])) },
+		"(*strings.Builder).Len":         func(in *Interp, fn *ssa.Function, args []value) value { return int64(len(sbBuf(in, args[0]))) },
+		"(*strings.Builder).Cap":         func(in *Interp, fn *ssa.Function, args []value) value { return int64(cap(sbBuf(in, args[0]))) },
+		"(*strings.Builder).Grow":        func(in *Interp, fn *ssa.Function, args []value) value { return nil },
+		"(*strings.Builder).Reset":       func(in *Interp, fn *ssa.Function, args []value) value { sbSet(in, args[0], nil); return nil },
+		"strings.NewReplacer":            stringsNewReplacer,
+		"(*strings.Replacer).Replace":    stringsReplacerReplace,
 		"internal/stringslite.Clone": func(in *Interp, fn *ssa.Function, args []value) value { return args[0] },
 		"strings.Clone":              func(in *Interp, fn *ssa.Function, args []value) value { return args[0] },
 		"strconv.cloneString":        func(in *Interp, fn *ssa.Function, args []value) value { return args[0] },
@@ -588,6 +599,134 @@ func strconvItoa(in *Interp, fn *ssa.Function, args []value) value {
 		return in.fmtIntTerm(x, true)
 	}
 	panic(engineErr("Itoa of %T", args[0]))
+}
+
+// strings.Builder: the struct is {addr *Builder; buf []byte}; the methods are modelled on buf.
+func sbCell(in *Interp, recv value) *value {
+	p, ok := recv.(*value)
+	if !ok || p == nil {
+		in.targetPanic("runtime error: invalid memory address or nil pointer dereference")
+	}
+	st := (*p).(structure)
+	return &st[1]
+}
+
+func sbBuf(in *Interp, recv value) []value {
+	b, _ := (*sbCell(in, recv)).([]value)
+	return b
+}
+
+func sbSet(in *Interp, recv value, b []value) { *sbCell(in, recv) = b }
+
+func sbWriteByte(in *Interp, fn *ssa.Function, args []value) value {
+	sbSet(in, args[0], append(sbBuf(in, args[0]), args[1]))
+	return iface{}
+}
+
+func sbWriteString(in *Interp, fn *ssa.Function, args []value) value {
+	b := strBytes(args[1])
+	sbSet(in, args[0], append(sbBuf(in, args[0]), b...))
+	return tuple{int64(len(b)), iface{}}
+}
+
+func sbWrite(in *Interp, fn *ssa.Function, args []value) value {
+	b, _ := args[1].([]value)
+	sbSet(in, args[0], append(sbBuf(in, args[0]), b...))
+	return tuple{int64(len(b)), iface{}}
+}
+
+// runeBytes encodes a rune as UTF-8; a symbolic rune forks on its length class.
+func (in *Interp) runeBytes(r value) []value {
+	switch x := r.(type) {
+	case int64:
+		return strBytes(string(rune(x)))
+	case *Term:
+		tt := in.tab
+		c := func(v uint64) *Term { return tt.Const(32, v) }
+		lt := func(v uint64) bool { return in.truth(in.simpBool(tt.Ult(x, c(v)))) }
+		b8 := func(t *Term) value { return in.simpInt(tt.Extract(t, 7, 0), false) }
+		or := func(k uint64, t *Term) *Term { return tt.Bin(OBOr, c(k), t) }
+		and3f := func(t *Term) *Term { return tt.Bin(OBAnd, t, c(0x3f)) }
+		shr := func(n uint64) *Term { return tt.Bin(OLShr, x, c(n)) }
+		switch {
+		case lt(0x80):
+			return []value{b8(x)}
+		case lt(0x800):
+			return []value{b8(or(0xc0, shr(6))), b8(or(0x80, and3f(x)))}
+		case lt(0x10000):
+			if !lt(0xd800) && lt(0xe000) {
+				return strBytes("\uFFFD")
+			}
+			return []value{b8(or(0xe0, shr(12))), b8(or(0x80, and3f(shr(6)))), b8(or(0x80, and3f(x)))}
+		case lt(0x110000):
+			return []value{b8(or(0xf0, shr(18))), b8(or(0x80, and3f(shr(12)))), b8(or(0x80, and3f(shr(6)))), b8(or(0x80, and3f(x)))}
+		}
+		return strBytes("\uFFFD")
+	}
+	panic(engineErr("runeBytes of %T", r))
+}
+
+func sbWriteRune(in *Interp, fn *ssa.Function, args []value) value {
+	b := in.runeBytes(args[1])
+	sbSet(in, args[0], append(sbBuf(in, args[0]), b...))
+	return tuple{int64(len(b)), iface{}}
+}
+
+type replacerData struct{ pairs []string }
+
+func stringsNewReplacer(in *Interp, fn *ssa.Function, args []value) value {
+	var pairs []string
+	if args[0] != nil {
+		for _, v := range args[0].([]value) {
+			pairs = append(pairs, concStr(v, "NewReplacer argument"))
+		}
+	}
+	if len(pairs)%2 == 1 {
+		in.targetPanic("strings.NewReplacer: odd argument count")
+	}
+	cell := new(value)
+	*cell = replacerData{pairs}
+	return cell
+}
+
+// Replace: replacements in the order they appear in the target, old strings tried in argument order.
+func stringsReplacerReplace(in *Interp, fn *ssa.Function, args []value) value {
+	p, ok := args[0].(*value)
+	if !ok || p == nil {
+		in.targetPanic("runtime error: invalid memory address or nil pointer dereference")
+	}
+	rd, ok := (*p).(replacerData)
+	if !ok {
+		panic(cut("Replacer of unknown construction"))
+	}
+	for i := 0; i < len(rd.pairs); i += 2 {
+		if rd.pairs[i] == "" {
+			panic(cut("Replacer with empty old string"))
+		}
+	}
+	b := strBytes(args[1])
+	var out []value
+	i := 0
+	for i < len(b) {
+		matched := false
+		for k := 0; k < len(rd.pairs); k += 2 {
+			old := strBytes(rd.pairs[k])
+			if i+len(old) > len(b) {
+				continue
+			}
+			if in.truth(in.simpBool(in.containsAt(b, old, i))) {
+				out = append(out, strBytes(rd.pairs[k+1])...)
+				i += len(old)
+				matched = true
+				break
+			}
+		}
+		if !matched {
+			out = append(out, b[i])
+			i++
+		}
+	}
+	return mkStr(out)
 }
 
 func strconvAppendInt(in *Interp, fn *ssa.Function, args []value) value {
